@@ -76,6 +76,7 @@ DataCommMode verif_logged_get_data_mode(size_t sel, size_t tot) {
 #include "e4_pace.h"
 
 #include <atomic>
+#include <ctime>
 
 struct NodeData {
   std::atomic<uint32_t> fmin;
@@ -257,6 +258,7 @@ static void run_case(const e4::Case& c, e4::Comm& comm, FILE* out) {
     fflush(out);
   }
   unsigned long syncs = 0, nontrivial = 0, compared = 0;
+  time_t lastTick = time(nullptr);
   std::set<uint64_t> outcomes;
   unsigned long modeCalls0[8];
   memcpy(modeCalls0, g_mode_calls, sizeof modeCalls0);
@@ -383,6 +385,16 @@ static void run_case(const e4::Case& c, e4::Comm& comm, FILE* out) {
                   ++syncs;
                   if (!bs)
                     ++nobitsetSyncs;
+                  // heartbeat: a case is tens of thousands of syncs; the
+                  // driver tells "slow" from "hung" by these lines
+                  if ((syncs & 127) == 0 && comm.rank == 0) {
+                    time_t now = time(nullptr);
+                    if (now - lastTick >= 2) {
+                      lastTick = now;
+                      fprintf(out, "{\"tick\":%lu}\n", syncs);
+                      fflush(out);
+                    }
+                  }
                 }
                 auto gathered = comm.gather(buf);
                 if (comm.rank != 0)
